@@ -489,6 +489,365 @@ theorem c19_with_unit_roundtrip (a b : Tag) (hab : convertible a b = true) (hba 
     intro o _
     exact (c19_convert_roundtrip a b hab hba o).2.2
 
+-- ------------------------------------------------------------------------------------------------
+-- `Distribution`, `Mean`
+
+/-- the outputs of honest values of unit `u` without dimensions -/
+def honest (u : Tag) (obss : List (List (Obs α))) : List (Out α) := obss.map (fun os => .metric os u [])
+
+theorem collect_honest (u : Tag) (obss : List (List (Obs α))) :
+    collect u (honest u obss) = ([], obss.flatten) := by
+  induction obss with
+  | nil => rfl
+  | cons os rest ih =>
+    simp only [honest, List.map_cons, collect] at ih ⊢
+    rw [ih]
+    simp
+
+/-- A distribution of honest values writes all their observations, in order, with the common unit. -/
+theorem c19_distribution_honest (u : Tag) (obss : List (List (Obs α))) (hne : obss ≠ []) :
+    distribution u (honest u obss) = .metric obss.flatten u [] := by
+  have : (honest u obss).isEmpty = false := by
+    cases obss with
+    | nil => exact absurd rfl hne
+    | cons _ _ => rfl
+  simp [distribution, this, collect_honest]
+
+/-- **Conversion commutes with collection**: `WithUnit<Distribution<V>, b>` and
+`Distribution<WithUnit<V, b>>` write the same metric — the converted observations, unit `b`. -/
+theorem c19_distribution_commutes (r : α) (a b : Tag) (obss : List (List (Obs α))) (hne : obss ≠ []) :
+    withUnit A r a b (distribution a (honest a obss)) = .metric (obss.flatten.map (convert A r)) b [] ∧
+    distribution b ((honest a obss).map (withUnit A r a b)) = .metric (obss.flatten.map (convert A r)) b [] := by
+  constructor
+  · rw [c19_distribution_honest a obss hne, c19_with_unit_honest]
+  · have h : (honest a obss).map (withUnit A r a b) = honest b (obss.map (List.map (convert A r))) := by
+      simp [honest, c19_with_unit_honest]
+    rw [h, c19_distribution_honest b _ (by simpa using hne), List.map_flatten]
+
+theorem collect_errors_of_mem (u : Tag) (elems : List (Out α)) (o : Out α) (hmem : o ∈ elems)
+    (hbad : o = .str ∨ ∃ obs unit dims, o = .metric obs unit dims ∧ unit ≠ u) :
+    (collect u elems).1 ≠ [] := by
+  induction elems with
+  | nil => cases hmem
+  | cons e rest ih =>
+    simp only [collect]
+    rcases List.mem_cons.mp hmem with rfl | hrest
+    · rcases hbad with rfl | ⟨obs, unit, dims, rfl, hne⟩
+      · simp
+      · simp [hne]
+    · have := ih hrest
+      cases e with
+      | nothing => simpa using this
+      | str => simp
+      | metric obs unit dims =>
+        by_cases h1 : unit ≠ u
+        · simp [h1]
+        · by_cases h2 : dims ≠ []
+          · simp [h1, h2]
+          · simpa [h1, h2] using this
+      | error es => simp [this]
+
+/-- **A distribution containing a string or a value of another unit is an error, not a metric.** -/
+theorem c19_distribution_errors (u : Tag) (elems : List (Out α)) (o : Out α) (hmem : o ∈ elems)
+    (hbad : o = .str ∨ ∃ obs unit dims, o = .metric obs unit dims ∧ unit ≠ u) :
+    ∃ es, es ≠ [] ∧ distribution u elems = .error es := by
+  have hne : elems.isEmpty = false := by
+    cases elems with
+    | nil => cases hmem
+    | cons _ _ => rfl
+  have h := collect_errors_of_mem u elems o hmem hbad
+  refine ⟨(collect u elems).1, h, ?_⟩
+  simp only [distribution, hne, Bool.false_eq_true, ↓reduceIte]
+  cases hc : collect u elems with
+  | mk es os =>
+    have : es ≠ [] := by simpa [hc] using h
+    simp [this]
+
+/-- sums of an honest list of observation lists -/
+def sumTotal (obss : List (List (Obs Rat))) : Rat := (obss.flatten.map (Obs.total ratArith)).sum
+def sumOcc {α : Type} (obss : List (List (Obs α))) : Nat := (obss.flatten.map Obs.occurrences).sum
+
+theorem foldl_mean (os : List (Obs Rat)) (st : MeanSt Rat) :
+    os.foldl (fun (st : MeanSt Rat) ob => (ratArith.add st.1 (Obs.total ratArith ob), st.2 + ob.occurrences)) st
+      = (st.1 + (os.map (Obs.total ratArith)).sum, st.2 + (os.map Obs.occurrences).sum) := by
+  induction os generalizing st with
+  | nil => obtain ⟨t, n⟩ := st; simp [Rat.add_zero]
+  | cons o rest ih =>
+    simp only [List.foldl_cons, List.map_cons, List.sum_cons]
+    rw [ih]
+    simp only [ratArith]
+    congr 1
+    · grind
+    · omega
+
+/-- `Mean::try_new` over honest values: the total is the sum of the totals and the occurrences are
+the sum of the occurrences. -/
+theorem mean_honest (u : Tag) (obss : List (List (Obs Rat))) (st : MeanSt Rat) :
+    meanTryExtend ratArith u st (honest u obss) = .ok (st.1 + sumTotal obss, st.2 + sumOcc obss) := by
+  induction obss generalizing st with
+  | nil => obtain ⟨t, n⟩ := st; simp [honest, meanTryExtend, sumTotal, sumOcc, Rat.add_zero]
+  | cons os rest ih =>
+    have hc : collect u [Out.metric os u ([] : List (Nat × Nat))] = (([] : List Err), os) := by
+      simp [collect]
+    simp only [honest, List.map_cons, meanTryExtend, meanRecord, hc] at ih ⊢
+    rw [foldl_mean, ih]
+    simp only [sumTotal, sumOcc, List.flatten_cons, List.map_append, List.sum_append]
+    congr 1
+    ext
+    · simp only; grind
+    · simp only; omega
+
+theorem sum_map_mul (l : List Rat) (r : Rat) : (l.map (· * r)).sum = l.sum * r := by
+  induction l with
+  | nil => simp
+  | cons x xs ih => simp only [List.map_cons, List.sum_cons, ih]; grind
+
+/-- **A mean keeps the quantity**: for honest values of unit `a`, `WithUnit<Mean<a>, b>` and
+`Mean<b>` over the individually converted values write the same repeated observation; its
+occurrences are the sum of the occurrences and its total, read in `b`, is the sum of the totals read
+in `a`. -/
+theorem c19_mean_quantity (a b : Tag) (h : convertible a b = true) (ha : a ≠ .none)
+    (obss : List (List (Obs Rat))) (hpos : 0 < sumOcc obss) :
+    ∃ total',
+      (meanTryExtend ratArith a (0, 0) (honest a obss)).map (fun st => withUnit ratArith (ratioQ a b) a b (meanWrite a st))
+        = .ok (.metric [.repeated total' (sumOcc obss)] b []) ∧
+      (meanTryExtend ratArith b (0, 0) ((honest a obss).map (withUnit ratArith (ratioQ a b) a b))).map (meanWrite b)
+        = .ok (.metric [.repeated total' (sumOcc obss)] b []) ∧
+      total' * Spec.scale b = sumTotal obss * Spec.scale a := by
+  refine ⟨sumTotal obss * ratioQ a b, ?_, ?_, c19_quantity_preserved a b h ha _⟩
+  · rw [mean_honest]
+    simp only [Except.map, meanWrite, Nat.zero_add, hpos, ↓reduceIte, c19_with_unit_honest, List.map_cons,
+      List.map_nil]
+    congr 3
+    have hz : (0 : Rat) + sumTotal obss = sumTotal obss := by grind
+    rw [hz]
+    unfold convert
+    split
+    · rename_i h1
+      have : ratioQ a b = 1 := by simpa [ratArith] using h1
+      rw [this]; congr 1; grind
+    · rfl
+  · have hm : (honest a obss).map (withUnit ratArith (ratioQ a b) a b)
+        = honest b (obss.map (List.map (convertQ a b))) := by
+      simp [honest, c19_with_unit_honest]
+    rw [hm, mean_honest]
+    have hocc : sumOcc (obss.map (List.map (convertQ a b))) = sumOcc obss := by
+      simp only [sumOcc, ← List.map_flatten, List.map_map]
+      congr 1
+      apply List.map_congr_left
+      intro o _
+      exact convert_occurrences _ _ _
+    have htot : sumTotal (obss.map (List.map (convertQ a b))) = sumTotal obss * ratioQ a b := by
+      simp only [sumTotal, ← List.map_flatten, List.map_map]
+      rw [← sum_map_mul, List.map_map]
+      congr 1
+      apply List.map_congr_left
+      intro o _
+      exact convert_total _ _
+    simp only [Except.map, meanWrite, Nat.zero_add, hocc, htot, hpos, ↓reduceIte]
+    congr 4
+    grind
+
+/-- `Mean::try_new` refuses (returns the error, builds no mean) as soon as a value is a string or
+writes another unit. -/
+theorem c19_mean_errors (u : Tag) (st : MeanSt α) (pre : List (List (Obs α))) (o : Out α) (rest : List (Out α))
+    (hbad : o = .str ∨ ∃ obs unit dims, o = .metric obs unit dims ∧ unit ≠ u) :
+    ∃ es, es ≠ [] ∧ meanTryExtend A u st (honest u pre ++ o :: rest) = .error es := by
+  induction pre generalizing st with
+  | nil =>
+    simp only [honest, List.map_nil, List.nil_append, meanTryExtend, meanRecord]
+    have h := collect_errors_of_mem u [o] o (List.mem_singleton.mpr rfl) hbad
+    cases hc : collect u [o] with
+    | mk es os =>
+      have hes : es ≠ [] := by simpa [hc] using h
+      cases es with
+      | nil => exact absurd rfl hes
+      | cons e es' => exact ⟨e :: es', by simp, rfl⟩
+  | cons os pre ih =>
+    have hc : collect u [Out.metric os u ([] : List (Nat × Nat))] = (([] : List Err), os) := by
+      simp [collect]
+    simp only [honest, List.map_cons, List.cons_append, meanTryExtend, meanRecord, hc] at ih ⊢
+    exact ih _
+
+-- non-vacuity: a mean of 1 s + (2 s in 2 occurrences) declared in milliseconds
+example :
+    ((meanTryExtend ratArith (.second .one) (0, 0)
+        (honest (.second .one) [[.unsigned 1], [.repeated 2 2]])).map
+      (fun st => withUnit ratArith (ratioQ (.second .one) (.second .milli)) (.second .one) (.second .milli)
+        (meanWrite (.second .one) st))).toOption
+    = some (.metric [.repeated 3000 3] (.second .milli) []) := by decide +kernel
+example : distribution (.second .one) ([.metric [.unsigned 1] (.second .one) [], .str] : List (Out Rat))
+    = .error [.distStrings] := by decide +kernel
+
+-- ------------------------------------------------------------------------------------------------
+-- `Duration`
+
+/-- the duration in seconds, exactly -/
+def durationSeconds (secs nanos : Nat) : Rat := (secs : Rat) + (nanos : Rat) / (1000000000 : Nat)
+
+theorem durationMillis_exact (secs nanos : Nat) :
+    durationMillis ratArith secs nanos = durationSeconds secs nanos * (1000 : Nat) := by
+  simp [durationMillis, durationSeconds, ratArith, Neg.reductionFactor]
+
+/-- **Durations are reported in milliseconds unless another time unit is declared**, and in both
+cases the reported number is the duration: without a wrapper the unit is `Milliseconds` and the
+number of milliseconds is `secs·10³ + nanos/10⁶`; under `WithUnit<Duration, t>` for any time unit `t`
+the unit is `t` and the number, read in `t`, is the same duration. -/
+theorem c19_duration_ms (secs nanos : Nat) :
+    (∃ ms, durationOut ratArith secs nanos = .metric [.floating ms] (.second .milli) [] ∧
+      ms * Spec.scale (.second .milli) = durationSeconds secs nanos) ∧
+    (∀ t : Neg, convertible (.second .milli) (.second t) = true ∧
+      ∃ o, withUnit ratArith (ratioQ (.second .milli) (.second t)) (.second .milli) (.second t)
+          (durationOut ratArith secs nanos) = .metric [o] (.second t) [] ∧
+        o.total ratArith * Spec.scale (.second t) = durationSeconds secs nanos ∧ o.occurrences = 1) := by
+  have hms : durationMillis ratArith secs nanos * Spec.scale (.second .milli) = durationSeconds secs nanos := by
+    rw [durationMillis_exact, scale_second]
+    have : ((fromSeconds .milli : Nat) : Rat) = ((1000 : Nat) : Rat) := rfl
+    rw [this]
+    have h1000 : ((1000 : Nat) : Rat) ≠ 0 := natCast_ne_zero (by decide)
+    grind
+  refine ⟨⟨_, rfl, hms⟩, fun t => ⟨rfl, ?_⟩⟩
+  refine ⟨convertQ (.second .milli) (.second t) (.floating (durationMillis ratArith secs nanos)), ?_, ?_, ?_⟩
+  · simp [durationOut, withUnit, convertQ]
+  · have := (c19_convert_quantity (.second .milli) (.second t) rfl (by simp)
+      (.floating (durationMillis ratArith secs nanos))).1
+    rw [this]
+    exact hms
+  · rw [convert_occurrences]; rfl
+
+-- non-vacuity: 1.5 s is written as 1500 ms, and as 1.5 under `AsSeconds`
+example : durationOut ratArith 1 500000000 = .metric [.floating 1500] (.second .milli) [] := by decide +kernel
+example : withUnit ratArith (ratioQ (.second .milli) (.second .one)) (.second .milli) (.second .one)
+    (durationOut ratArith 1 500000000) = .metric [.floating (3 / 2)] (.second .one) [] := by decide +kernel
+
+-- ------------------------------------------------------------------------------------------------
+-- the `f64` constants
+
+theorem roundHalfEven_cases (N D : Nat) :
+    roundHalfEven N D = N / D ∧ 2 * (N % D) ≤ D ∨ roundHalfEven N D = N / D + 1 ∧ D ≤ 2 * (N % D) := by
+  unfold roundHalfEven
+  simp only
+  split
+  · left; exact ⟨rfl, by omega⟩
+  · split
+    · right; exact ⟨rfl, by omega⟩
+    · split
+      · left; exact ⟨rfl, by omega⟩
+      · right; exact ⟨rfl, by omega⟩
+
+/-- rounding to the nearest integer is off by at most one half: `|m·D − N| ≤ D/2` -/
+theorem roundHalfEven_err (N D : Nat) (hD : 0 < D) :
+    2 * (roundHalfEven N D * D - N) ≤ D ∧ 2 * (N - roundHalfEven N D * D) ≤ D := by
+  have hdm := Nat.div_add_mod N D
+  have hlt := Nat.mod_lt N hD
+  generalize hP : D * (N / D) = P at hdm
+  rcases roundHalfEven_cases N D with ⟨hm, hr⟩ | ⟨hm, hr⟩
+  · rw [hm, Nat.mul_comm (N / D) D, hP]
+    omega
+  · rw [hm, Nat.add_mul, Nat.one_mul, Nat.mul_comm (N / D) D, hP]
+    omega
+
+/-- **Correct rounding, relative error ≤ 2⁻⁵³.** If `rneAt n d k` succeeds with `(m, e)` then, with
+`N / D = (n / d) · 2^k` the scaled fraction (`scaleBy`), there is an integer significand `m'` with
+`m' · 2^(-k) = m · 2^e`, `2^52 ≤ m < 2^53` (a normal binary64 significand), `|m'·D − N| ≤ D/2`
+(nearest) and hence `2^53 · |m'·D − N| ≤ N`, i.e. `|m·2^e − n/d| ≤ 2⁻⁵³ · n/d`.
+
+`_partial`: the statement is in cross-multiplied form over `Nat`; its reading as an inequality
+between rationals (`m·2^e` and `n/d`) is not derived in Lean (core `Rat` has no integer powers). -/
+theorem c19_rne_rel_err_partial (n d : Nat) (k : Int) (m : Nat) (e : Int)
+    (h : rneAt n d k = some (m, e)) :
+    ∃ m', ((m = m' ∧ e = -k) ∨ (m' = 2 ^ 53 ∧ m = 2 ^ 52 ∧ e = -k + 1)) ∧
+      2 ^ 52 ≤ m ∧ m < 2 ^ 53 ∧
+      2 * (m' * (scaleBy n d k).2 - (scaleBy n d k).1) ≤ (scaleBy n d k).2 ∧
+      2 * ((scaleBy n d k).1 - m' * (scaleBy n d k).2) ≤ (scaleBy n d k).2 ∧
+      2 ^ 53 * (m' * (scaleBy n d k).2 - (scaleBy n d k).1) ≤ (scaleBy n d k).1 ∧
+      2 ^ 53 * ((scaleBy n d k).1 - m' * (scaleBy n d k).2) ≤ (scaleBy n d k).1 := by
+  unfold rneAt at h
+  generalize scaleBy n d k = p at h ⊢
+  obtain ⟨N, D⟩ := p
+  simp only at h ⊢
+  split at h
+  · rename_i hc
+    obtain ⟨hD, hlo, hhi⟩ := hc
+    have herr := roundHalfEven_err N D hD
+    have hq1 : 2 ^ 52 ≤ N / D := (Nat.le_div_iff_mul_le hD).mpr hlo
+    have hq2 : N / D < 2 ^ 53 := (Nat.div_lt_iff_lt_mul hD).mpr hhi
+    have hm1 : 2 ^ 52 ≤ roundHalfEven N D := by
+      rcases roundHalfEven_cases N D with ⟨hm, _⟩ | ⟨hm, _⟩ <;> omega
+    have hm2 : roundHalfEven N D ≤ 2 ^ 53 := by
+      rcases roundHalfEven_cases N D with ⟨hm, _⟩ | ⟨hm, _⟩ <;> omega
+    refine ⟨roundHalfEven N D, ?_, ?_, ?_, herr.1, herr.2, ?_, ?_⟩
+    · split at h
+      · rename_i h53
+        simp only [Option.some.injEq, Prod.mk.injEq] at h
+        right; exact ⟨h53, h.1.symm, h.2.symm⟩
+      · simp only [Option.some.injEq, Prod.mk.injEq] at h
+        left; exact ⟨h.1.symm, h.2.symm⟩
+    · split at h <;> simp only [Option.some.injEq, Prod.mk.injEq] at h <;> omega
+    · split at h <;> simp only [Option.some.injEq, Prod.mk.injEq] at h <;> omega
+    · have := herr.1; omega
+    · have := herr.2; omega
+  · cases h
+
+/-- `rne` is `rneAt` at one of its two candidate exponents, so `c19_rne_rel_err_partial` applies to
+every value `rne` returns (in particular to all 435 constants of `c19_f64_ratio`). -/
+theorem c19_rne_is_rneAt (n d m : Nat) (e : Int) (h : rne n d = some (m, e)) :
+    ∃ k, rneAt n d k = some (m, e) ∧ -1022 ≤ e + 52 ∧ e + 52 ≤ 1023 := by
+  unfold rne at h
+  split at h
+  · cases h
+  · simp only at h
+    split at h
+    · rename_i m' e' hr
+      split at h
+      · rename_i hrange
+        simp only [Option.some.injEq, Prod.mk.injEq] at h
+        obtain ⟨rfl, rfl⟩ := h
+        split at hr
+        · rename_i r hk
+          cases hr
+          exact ⟨_, hk, hrange⟩
+        · exact ⟨_, hr, hrange⟩
+      · cases h
+    · cases h
+
+/-- the checks of `c19_f64_ratio` for one pair, as a computation -/
+def ratioOk (p : Tag × Tag) : Bool :=
+  match ratioND p.1 p.2 with
+  | some (n, d) =>
+    match rne n d with
+    | some (m, e) =>
+      decide (0 < n) && decide (0 < d) && (ratioBits p.1 p.2 == some (f64Bits m e)) &&
+        decide (2 ^ 52 ≤ m) && decide (m < 2 ^ 53)
+    | none => false
+  | none => false
+
+/-- **Every `RATIO` constant is representable**: for each of the 435 convertible pairs the exact
+ratio rounds (to nearest, ties to even) to a normal binary64 number, whose bit pattern the driver
+compares with the real `Convert::RATIO` on every run. -/
+theorem c19_f64_ratio (a b : Tag) (h : convertible a b = true) :
+    ∃ n d m e, ratioND a b = some (n, d) ∧ 0 < n ∧ 0 < d ∧ rne n d = some (m, e) ∧
+      ratioBits a b = some (f64Bits m e) ∧ 2 ^ 52 ≤ m ∧ m < 2 ^ 53 := by
+  have hall : convertiblePairs.all ratioOk = true := by decide +kernel
+  have := List.all_eq_true.mp hall (a, b) (mem_convertiblePairs h)
+  unfold ratioOk at this
+  simp only at this
+  split at this
+  · rename_i n d hnd
+    split at this
+    · rename_i m e hme
+      simp only [Bool.and_eq_true, decide_eq_true_eq, beq_iff_eq] at this
+      exact ⟨n, d, m, e, hnd, this.1.1.1.1, this.1.1.1.2, hme, this.1.1.2, this.1.2, this.2⟩
+    · simp at this
+  · cases this
+
+-- the constants asserted by the repository's own test, and two it does not assert
+example : ratioBits (.second .one) (.second .milli) = some 0x408f400000000000 := by decide +kernel  -- 1000.0
+example : ratioBits (.second .milli) (.second .one) = some 0x3f50624dd2f1a9fc := by decide +kernel  -- 0.001
+example : ratioBits (.data .byte .mega) (.data .bit .giga) = some 0x3f80624dd2f1a9fc := by decide +kernel  -- 0.008
+example : ratioBits (.data .bit .tera) (.data .byte .kilo) = some 0x419dcd6500000000 := by decide +kernel  -- 1.25e8
+example : ratioBits (.data .bit .one) (.data .bytePerSecond .tera) = some 0x3d419799812dea11 := by decide +kernel  -- 1.25e-13
+
 end Units
 
 #print axioms Units.c19_generated_is_model
@@ -507,3 +866,12 @@ end Units
 #print axioms Units.c19_option_commutes
 #print axioms Units.c19_with_unit_quantity
 #print axioms Units.c19_with_unit_roundtrip
+#print axioms Units.c19_distribution_honest
+#print axioms Units.c19_distribution_commutes
+#print axioms Units.c19_distribution_errors
+#print axioms Units.c19_mean_quantity
+#print axioms Units.c19_mean_errors
+#print axioms Units.c19_duration_ms
+#print axioms Units.c19_rne_rel_err_partial
+#print axioms Units.c19_f64_ratio
+#print axioms Units.c19_rne_is_rneAt
